@@ -761,7 +761,7 @@ func scenarios() []*mc.Scenario {
 		sessScenario(sessProg{name: "faults/read-write-error-or-timeout", sessions: 1, sends: []string{"ab", "c"}, peerFrames: "xy", peerClose: true, faults: true, pb: [2]int{2, 3}, dev: [2]int{1, 2}}),
 		sessScenario(sessProg{name: "faults/with-local-close", sessions: 1, sends: []string{"ab"}, localClose: true, peerFrames: "x", faults: true, pb: [2]int{2, 3}, dev: [2]int{1, 2}}),
 		sessScenario(sessProg{name: "faults/with-handler-panic", sessions: 1, sends: []string{"ab"}, peerFrames: "P", faults: true, pb: [2]int{2, 3}, dev: [2]int{1, 2}}),
-		sessScenario(sessProg{name: "two-sessions/local-close+peer-close", sessions: 2, sends: []string{"ab"}, localClose: true, peerFrames: "x", peerClose: true, pb: [2]int{1, 2}, fb: [2]int{4, 6}}),
+		sessScenario(sessProg{name: "two-sessions/local-close+peer-close", sessions: 2, sends: []string{"ab"}, localClose: true, peerFrames: "x", peerClose: true, pb: [2]int{1, 1}, fb: [2]int{4, 7}}),
 		sessScenario(sessProg{name: "two-sessions/faults", sessions: 2, sends: []string{"ab"}, peerFrames: "x", peerClose: true, faults: true, pb: [2]int{1, 1}, dev: [2]int{1, 1}, fb: [2]int{3, 5}}),
 	)
 	// deadlines on a virtual clock: read timeout, write timeout to a peer that does not read, heartbeats
